@@ -15,6 +15,13 @@ unfired Deferred pauses the chain until that Deferred fires, and its result (val
 becomes the chain's current result.  `eventually(f, x)` returns None and queues `f(x)` on foolscap's
 FIFO eventual-send queue, which runs in a later reactor turn.
 
+An operation may consist of several *attempts*: `MutableFileVersion._modify_and_retry` (behind
+`MutableFileNode.modify`, hence behind every directory edit) catches `UncoordinatedWriteError`, waits
+for the backoffer and returns the Deferred of the next `_modify_and_retry(...)` call from its errback,
+so the next attempt is chained into the Deferred the serialized callable returned: that Deferred --
+the operation's extent as `_do_serialized` sees it -- stays unfired until the last attempt ends
+(`Op.retry`, `Ev.retry`; the operation re-reads the contents at every attempt).
+
 Deviation: the three `add…` calls are modelled as one append followed by one run (equivalent: the
 chain is only run when not paused, and running is idempotent on an empty chain).  Re-entrant calls
 of `_do_serialized` from inside a serialized callable are excluded (the code comment forbids them).
@@ -32,6 +39,7 @@ inductive Ev
   | start (i : Nat)                -- the operation's callable is invoked
   | finish (i : Nat) (r : Res)     -- the operation's own result (success or failure) is available
   | deliver (i : Nat) (r : Res)    -- the caller's Deferred fires (from the eventual queue)
+  | retry (i : Nat)                -- an attempt of operation i ended in UncoordinatedWriteError; its next attempt begins
   deriving DecidableEq, Repr
 
 /-- everything but the pending callback chain; `content`/`snap` model what serialized
@@ -85,6 +93,8 @@ inductive Op
   | req (sync : Option Res)      -- client calls `_do_serialized`; `some r`: the callable completes synchronously with r
   | fin (i : Nat) (r : Res)      -- the inner Deferred of operation i fires
   | turn                         -- one turn of the eventual-send queue
+  | retry (i : Nat)              -- the current attempt of operation i collides (UncoordinatedWriteError) and, after the
+                                 -- backoff, `_retry` chains the next attempt into the operation's own Deferred
   deriving Repr
 
 def step (s : St) : Op → St
@@ -100,10 +110,16 @@ def step (s : St) : Op → St
     else s
   | .turn =>
     { s with core := { s.core with evq := [], log := s.core.log ++ s.core.evq.map (fun p => .deliver p.1 p.2) } }
+  | .retry i =>
+    if s.core.waiting = some i then
+      -- the inner Deferred does not fire: the chain stays paused on operation i; the new attempt reads again
+      { s with core := { s.core with log := s.core.log ++ [.retry i], snap := s.core.content } }
+    else s
 
 def runOps (ops : List Op) : St := ops.foldl step {}
 
-/-- scan a log: starts and finishes must alternate, in request order 0,1,2,…;
+/-- scan a log: starts and finishes must alternate, in request order 0,1,2,…, and every further
+attempt of an operation lies between its start and its finish;
 returns (number of finished operations, the operation in progress). -/
 def scan : List Ev → Nat × Option Nat → Option (Nat × Option Nat)
   | [], st => some st
@@ -112,6 +128,8 @@ def scan : List Ev → Nat × Option Nat → Option (Nat × Option Nat)
   | .finish i _ :: rest, (n, some j) => if i = j ∧ i = n then scan rest (n + 1, none) else none
   | .finish _ _ :: _, (_, none) => none
   | .deliver _ _ :: rest, st => scan rest st
+  | .retry i :: rest, (n, some j) => if i = j then scan rest (n, some j) else none
+  | .retry _ :: _, (_, none) => none
 
 /-- ids of the operations that finished successfully, in log order -/
 def succeeded : List Ev → List Nat
